@@ -293,7 +293,7 @@ PROPS = {
                 note="-O2 build without sanitizers (tick counts are per build; thresholds are ratios, plus one absolute per-call constant at 8x the measured maximum). zlib's own work is not counted (bounded by C07). Logging is off: the message list is the caller's to drain.",
                 technique="deterministic simulation with a virtual CPU clock (basic-block counter seam); pump schedules along a doubling ladder x delivery schedules",
                 design_ref="DESIGN.md section 7 C08",
-                rule="generated pumps: 33 insertion sites (request method/path/query/protocol/header name/header value/cookie/credentials/content-type/transfer-encoding/host, urlencoded and multipart bodies, multipart part headers, status reason, response header value/content-encoding/transfer-encoding/content-length; whole lines repeated among request/response/interim headers, chunk-size lines, trailers, multipart part headers and bodies, before and after a message) x 44 unit strings or 33 line units x 3 line ends x 3 deliveries, all enumerated by the run index (every odd run), interleaved with the 59 named pump patterns (header lines distinct/same/empty/folded/LF-CR/no-colon, folded continuations under pending lines with/without colon or with empty name x plain/tab/colon/whitespace continuations on both sides, NUL in values, trailers, CR runs, spaces, chunk-size lines, chunk extension, empty lines, parameters in body and query, cookies, multipart parts and near-boundary lines, Content-Encoding tokens, pipelined transactions, interim 100 responses, CR/NUL junk, unexpected body lines, long values) x {whole, 1 byte per call, geometric chunks} x k = 64..8192 (16384 thorough), all personalities. A case = one (pattern, delivery, personality) ladder; evaluations = executions of libhtp."),
+                rule="generated pumps: 33 insertion sites (request method/path/query/protocol/header name/header value/cookie/credentials/content-type/transfer-encoding/host, urlencoded and multipart bodies, multipart part headers, status reason, response header value/content-encoding/transfer-encoding/content-length; whole lines repeated among request/response/interim headers, chunk-size lines, trailers, multipart part headers and bodies, before and after a message) x 44 unit strings (each alone and followed by an ordinary token) or 33 line units x 3 line ends x 3 deliveries, all enumerated by the run index (every odd run), interleaved with the 59 named pump patterns (header lines distinct/same/empty/folded/LF-CR/no-colon, folded continuations under pending lines with/without colon or with empty name x plain/tab/colon/whitespace continuations on both sides, NUL in values, trailers, CR runs, spaces, chunk-size lines, chunk extension, empty lines, parameters in body and query, cookies, multipart parts and near-boundary lines, Content-Encoding tokens, pipelined transactions, interim 100 responses, CR/NUL junk, unexpected body lines, long values) x {whole, 1 byte per call, geometric chunks} x k = 64..8192 (16384 thorough), all personalities. A case = one (pattern, delivery, personality) ladder; evaluations = executions of libhtp."),
     "C18": dict(reach=['c18.k_reached', 'c18.sustained_runs', 'c18.histories'], flavor="san", level="fault_enumeration",
                 claim="Fault enumeration over a seeded corpus: for each history the fault-free run counts K allocations (malloc/calloc/realloc/strdup made by libhtp, zlib and the bundled LZMA decoder, from htp_config_create to htp_config_destroy); then the run is repeated with the k-th allocation failing for every k <= K (quick: at most 1200 evenly spaced k per history), plus sustained-pressure runs in which every allocation from k on fails. Oracle: no ASan/UBSan report, every call returns, the per-call API contract keeps holding, teardown completes without double or invalid free.",
                 note="Leaks under an injected failure are counted, not raised (the statement does not promise leak-freedom under failure). The corpus is seeded, not exhaustive; within a history the enumeration over k is complete in the thorough tier.",
